@@ -11,15 +11,23 @@ sys.path.insert(0, "/repo")
 sys.path.insert(0, os.path.dirname(os.path.dirname(os.path.abspath(__file__))))
 from harness.core import Ctx, VERIF
 pid = sys.argv[1]
+only = sys.argv[3:] if len(sys.argv) > 3 and sys.argv[2] == "--only" else None     # scopes to (re)collect
 mod = importlib.import_module(f"checks.{pid.lower()}")
 allw = {}
+wfile = VERIF / "findings" / f"{pid}_witnesses.json.gz"
+if only and wfile.exists():
+    with gzip.open(wfile, "rt") as f:
+        allw = {k: v for k, v in json.load(f).items() if k not in only}
 for tier in ("quick", "thorough"):
     ctx = Ctx(pid, tier, 0)
     ctx.replay_mode = True
     col = {}
     import io, contextlib
     with contextlib.redirect_stdout(io.StringIO()):
-        mod.run(ctx, collect=col)
+        if only:
+            mod.run(ctx, collect=col, only=only)
+        else:
+            mod.run(ctx, collect=col)
     for scope, keys in col.items():
         allw[scope] = sorted(set(allw.get(scope, [])) | set(keys))
     print(tier, {k: len(v) for k, v in col.items()}, flush=True)
